@@ -298,7 +298,15 @@ def run(facts, rep, events, model):
             if (t.get("callee") or "").endswith("::flock") and "libc" in t.get("callee"):
                 for (owner, flag) in flag_flows(facts, body, t["args"][1]):
                     flock_calls.append((owner, flag, t.get("ln")))
-    rep.floor("libc::flock flag flows", len(flock_calls), 2)
+    if not flock_calls:
+        # no flock at all: the lock is taken some other way (POSIX record locks via fcntl(F_SETLK) are owned by the PROCESS and
+        # are released when the process closes ANY descriptor of the file - a refused second open in the same process would
+        # drop the live handle's lock)
+        n += 1
+        others = sorted({(t.get("callee") or "").rsplit("::", 1)[-1] for body in facts.bodies.values() if body.crate == "nomt" and body.id.startswith(("nomt::sys::", "nomt::store::flock::")) for _b, t in body.calls() if "libc" in (t.get("callee") or "")})
+        rep.violation("D2", "store::flock::Flock::lock", "flock|missing", "the directory lock is no longer taken with flock(LOCK_EX | LOCK_NB) (libc calls now used by the lock code: %s): only an flock on the open file description is exclusive across processes AND across handles of one process and survives the closing of other descriptors of the file" % (", ".join(others) or "none"), site=lk.span)
+    else:
+        rep.floor("libc::flock flag flows", len(flock_calls), 2)
     seen_lock = seen_unlock = False
     for (fn, flag, ln) in sorted(set(flock_calls), key=repr):
         n += 1
